@@ -126,9 +126,9 @@ func init() {
 	addProp(&propSpec{
 		ID: "C05", Engine: "vmm", Level: "exploration",
 		Subs: []subCheck{{Name: "C05", QuickRuns: 1000000000, QuickMs: 20000, ThoroughRuns: 1000000000, ThoroughMs: 480000}},
-		Rule: "one evaluation = one simulated boot stage: 0-6 early reservations made through the real EarlyReserveRegion and mapped with the real Map in the boot space, a generated ELF-sections tag (0-12 sections: sizes 1 byte to many pages, aligned or not, ending exactly on a page boundary or not, every W/A/X combination, sections below the kernel offset, empty and non-allocated sections) decoded by the real multiboot.VisitElfSections, then the real vmm.Init with optional allocation / temporary-mapping failure; afterwards ALL present leaves of the activated root are enumerated by an independent walker and must be exactly the section pages (right frame, W, X, never user) plus the reserved pages (same frame as in the boot space). Non-trivial = at least two section pages expected; distinct = hash of (sections, number of reserved pages).",
+		Rule: "one evaluation = one simulated boot stage: 0-6 early reservations made through the real EarlyReserveRegion and mapped with the real Map in the boot space, a generated ELF-sections tag (0-12 sections, in a quarter of the runs up to 64: sizes 1 byte to many pages, aligned or not, ending exactly on a page boundary or not, every W/A/X combination, sections below the kernel offset, empty and non-allocated sections) decoded by the real multiboot.VisitElfSections, then the real vmm.Init with optional allocation / temporary-mapping failure; afterwards ALL present leaves of the activated root are enumerated by an independent walker and must be exactly the section pages (right frame, W, X, never user) plus the reserved pages (same frame as in the boot space). Non-trivial = at least two section pages expected; distinct = hash of (sections, number of reserved pages).",
 		Assume:   []string{"no two sections share a page (as the linker script lays them out)", "every early reservation was mapped before this stage (what the PMM does); reserved-but-unmapped pages are outside the statement", "flags of copied reservation pages are not compared (the statement speaks of their translations)"},
-		Required: []string{"c05.sections_mapped", "c05.reservations_copied", "c05.unaligned_section", "c05.section_below_offset_ignored", "c05.init_failed_by_injection"},
+		Required: []string{"c05.sections_mapped", "c05.reservations_copied", "c05.unaligned_section", "c05.section_below_offset_ignored", "c05.init_failed_by_injection", "c05.more_than_16_sections_in_range"},
 	})
 	addProp(&propSpec{
 		ID: "C06", Engine: "vmm", Level: "fault_enumeration",
